@@ -40,6 +40,7 @@ class Ctx:
         self.isects = []
         self.queried_isects = []
         self.live_iters = 0      # fiber iterators currently being walked by a for loop
+        self.explicit_shapes = []   # (rank ids, shape, name) of every Tensor(...) built with shape=
 
     def probe(self, name, n=1):
         self.probes[name] = self.probes.get(name, 0) + n
@@ -356,6 +357,7 @@ class Tensor:
         self.root = root if root is not None else (Fiber(n) if n else Payload(0))
         if shape is not None:
             CTX.probe("tensor_explicit_shape")
+            CTX.explicit_shapes.append((list(self.rank_ids), [val(x) for x in self.shape], name))
 
     @staticmethod
     def fromFiber(rank_ids=None, fiber=None, name=None, shape=None):
